@@ -35,6 +35,14 @@ def run_hint(fv, h, st):
                 fv.add_fact(st, TrigB(sv.term))
             else:
                 fv.add_fact(st, Trig(sv.term))
+    elif name == 'assign':
+        # ghost assignment: assign("name", spec-expression)
+        gname = h.args[0].value
+        if not (fv.c and gname in fv.c.ghost_locals):
+            raise EngineError('assign() hint to %s which is not a ghost_local' % gname)
+        sv = fv.ev(h.args[1], st, True)
+        ty = fv.E.parse_ty(fv.c.ghost_locals[gname])
+        st.env[gname] = coerce(sv, ty) if sv.ty != ty else sv
     else:
         raise EngineError('unknown hint ' + name)
 
@@ -139,6 +147,12 @@ def verify_function(fv):
     fv.ret_ty = E.parse_ty(c.ret) if c.ret else NONE
     for pname, pe in c.requires:
         fv.add_fact(st, fv.truthy(fv.ev(pe, st, True)))
+    for gname, gty in c.ghost_locals.items():
+        ty = E.parse_ty(gty)
+        init = {'set': P.set_empty, 'seq': P.seq_empty, 'map': P.map_empty}.get(ty.kind)
+        if init is None:
+            raise EngineError('ghost_local of type %r' % ty)
+        st.env[gname] = SV(init, ty)
     fv.oblige(st, 'cover[entry]', z3.BoolVal(False), fv.fn, kind='cover')
     from .loops import run_hints
     run_hints(fv, c.entry_hints, st)
